@@ -284,6 +284,13 @@ func Yield() {
 	if s.Tape.Choose(s.PreemptDen) != 1 {
 		return
 	}
+	s.preempt(t)
+}
+
+// preempt takes the processor from the running task at a pre-emption point whose coin came up:
+// for a moment (other runnable tasks get their turn) or, with the thread-stall fault, for a while
+// of simulated time.
+func (s *Sched) preempt(t *Task) {
 	s.Preemptions++
 	if s.StallBudget > 0 && s.StallDen > 0 && (s.StallSite == nil || s.StallSite(t.Site)) && s.Tape.Choose(s.StallDen) == 0 {
 		// fault: a stalled thread. The task loses the processor for a while of simulated time at
